@@ -96,6 +96,19 @@ def _scaled(spec):
     return f
 
 
+def _npenv(spec):
+    """inner(y), computed the way numerical user code often is: with a numpy intermediate that underflows.  Under numpy's
+    default error mode (under='ignore') that is silent and exact; the value equals inner(y) bit for bit."""
+    import numpy as np
+    inner = build(spec["inner"])
+
+    def f(y):
+        v = inner(y)
+        tiny = np.float64(1e-200) * np.float64(1e-200)      # 0.0 - unless somebody left np.seterr(under='raise') behind
+        return v + float(tiny)
+    return f
+
+
 def _shipped(spec):
     """A real benchmark problem from iOpt/problems, evaluated on a private instance."""
     prob = make_shipped(spec)
@@ -136,7 +149,7 @@ def make_shipped(spec):
 
 _BUILDERS = {
     "cones": _cones, "sines": _sines, "paraboloid": _paraboloid, "linear": _linear,
-    "const": _const, "quant": _quant, "shipped": _shipped, "scaled": _scaled,
+    "const": _const, "quant": _quant, "shipped": _shipped, "scaled": _scaled, "npenv": _npenv,
 }
 
 
